@@ -1,7 +1,7 @@
 /*UNIT
 {"props": ["C17"], "src": ["lib/trie.c"], "mode": "plain", "kind": "bounded",
- "bound": "trie of 4 nodes: root, a branching node for the first character WITHOUT a value, two leaf children with values (keys c0c1, c0c2); characters from {a, b, c, 0x80, 0xff} per enumerated case; no iterators, no notifiers",
- "unwind": 258, "cbmc_flags": ["--no-malloc-may-fail"],
+ "bound": "trie of 4 nodes: root, a branching node for the first character WITHOUT a value, two leaf children with values (keys c0c1, c0c2); characters from {b..z} (three concrete triples), children arrays of 30 slots as new_child_node allocates them; no iterators, no notifiers",
+ "unwind": 32, "cbmc_flags": ["--no-malloc-may-fail"],
  "functions": ["trie_rm", "trie_lookup", "trie_node_deref", "trie_node_destroy", "trie_node_release", "trie_notify"],
  "restrict_fp": ["trie_notify.function_pointer_call.1/verif_notify_cb", "trie_notify.function_pointer_call.2/verif_notify_cb"],
  "stubs": ["map notifier callback (records calls)", "calloc/malloc/realloc (scripted)"],
@@ -59,7 +59,7 @@ static void verif_case(char c0, char c1, char c2)
 void harness(void)
 {
 	VERIF_ND(uint8_t, nd_case);
-	if (nd_case == 0) verif_case('a', 'b', 'c');
-	if (nd_case == 1) verif_case((char)0x80, 'a', (char)0xff);
-	if (nd_case == 2) verif_case('c', (char)0xff, (char)0x80);
+	if (nd_case == 0) verif_case('b', 'c', 'd');
+	if (nd_case == 1) verif_case('z', 'k', 'b');
+	if (nd_case == 2) verif_case('m', 'z', 'c');
 }
